@@ -2,7 +2,7 @@
 import z3
 
 from pyvc.contracts import contract
-from pyvc.core import Arr, Obj, Opaque, to_real, to_z3
+from pyvc.core import Arr, Obj, Opaque, rv, to_real, to_z3
 from pyvc.lib import SUM
 from pyvc.models_time import mk_dt
 from contracts.evals import rsum, _flat, _size
@@ -275,3 +275,49 @@ def target_rates_case(scale):
 from pyvc.contracts import REG as _REG2
 for _sc in (False, True):
     _REG2.add(target_rates_case(_sc))
+
+
+# ---------------------------------------------------------------------------------------------------
+# C11: rate lookup.  For a point inside the half-open cell of an active cell i and a magnitude inside bin k, get_rates returns
+# the (scaled) rate stored for (i, k) - lower corner included, upper edges excluded (up to the documented tolerance zone)
+# ---------------------------------------------------------------------------------------------------
+@contract
+class GetRates:
+    qualname = GF + '.get_rates'
+    case = 'forecast on a lattice region (RI) with equally spaced magnitude edges; arrays of points'
+    properties = ('C11',)
+
+    def params(c):
+        o, L, mags, D0, s = _forecast_on_lattice(c)
+        n = c.int('n_points')
+        c.ctx.assume(n >= 0)
+        return dict(self=o, lons=c.arr('lons', 'float64', n=n), lats=c.arr('lats', 'float64', n=n), mags=c.arr('mags', 'float64', n=n),
+                    data=None, ret_inds=False, _v=dict(L=L, grid=mags, D0=D0, s=s))
+
+    def requires(c, self, lons, lats, mags, data, ret_inds, _v):
+        L, g = _v['L'], _v['grid']
+        return (L.RI() + L.grid_requires(c, lons) + Bin1d_f64.requires(c, mags, g, None, True) + [to_real(g.grid[1]) > 0])
+
+    def raises(c, exc, self, lons, lats, mags, data, ret_inds, _v):
+        if exc.name == 'ValueError':
+            return []          # a point outside the region / a magnitude below the first edge: the lookups' own contracts say when
+        return None
+
+    def ensures(c, r, self, lons, lats, mags, data, ret_inds, _v):
+        L, g, D0, s = _v['L'], _v['grid'], _v['D0'], _v['s']
+        m0, dm, nm = g.grid
+        yield 'one rate per point', z3.And(z3.BoolVal(isinstance(r, Arr) and r.ndim == 1), to_z3(r.shape[0]) == to_z3(lons.shape[0]))
+        e, i, k = c.ctx.fresh_int('e!sk'), c.ctx.fresh_int('i!sk'), c.ctx.fresh_int('k!sk')
+        lon, lat, mag = to_real(lons.f((e,))), to_real(lats.f((e,))), to_real(mags.f((e,)))
+        # the magnitude lookup's contract at point e and edge k
+        bins = [x for x in c.calls(BIN1D)]
+        if bins:
+            for f in bins[-1][2].ghost['bin1d'](e, k):
+                c.ctx.assume(f)
+        from contracts.calc import TOL, zabs
+        tau = rv(TOL['float64']) * (zabs(mag) + (z3.ToReal(k) + 2) * zabs(to_real(m0)))
+        in_bin = z3.And(0 <= k, k < nm, mag >= to_real(m0) + z3.ToReal(k) * to_real(dm),
+                        z3.Or(k == nm - 1, mag < to_real(m0) + (z3.ToReal(k) + 1) * to_real(dm) - tau))
+        yield 'a point inside cell i with a magnitude inside bin k (last bin open at the top) gets the stored rate of (i, k) x the current factor', \
+            z3.Implies(z3.And(0 <= e, e < to_z3(lons.shape[0]), 0 <= i, i < L.N, L.active(i), L.inside(i, lon, lat), in_bin),
+                       to_real(r.f((e,))) == to_real(D0.f((i, k))) * s)
